@@ -51,10 +51,10 @@ prop("C01", "exploration",
           "a run is non-trivial if at least one snapshot write was accepted and round-trip checked, and distinct if its "
           "plan digest is new and it reached an observation hash no earlier run reached")
 prop("C06", "exploration",
-     quick=[("tracks", "fast", 1400), ("mixed", "fast", 500), ("foreign", "fast", 700), ("cross", "fast", 500),
+     quick=[("tracks", "fast", 1400), ("mixed", "fast", 500), ("foreign", "fast", 700), ("foreign1", "fast", 800), ("cross", "fast", 500),
             ("tracks_disk_faulty", "fast", 800)],
-     thorough=[("tracks", "fast", 60000), ("mixed", "fast", 30000), ("tracks", "san", 3000), ("foreign", "fast", 40000), ("cross", "fast", 30000),
-               ("tracks_disk_faulty", "fast", 30000)],
+     thorough=[("tracks", "fast", 60000), ("mixed", "fast", 30000), ("tracks", "san", 3000), ("foreign", "fast", 40000), ("foreign1", "fast", 40000),
+               ("cross", "fast", 30000), ("tracks_disk_faulty", "fast", 30000)],
      relevant=["setter_ok", "foreign_getter_snapshot_checked"],
      rule="seeded histories of the 25 field setters (incl. per-slot cue/loop setters) interleaved over several tracks; "
           "non-trivial = at least one setter accepted and differentially checked against the previous full observation; "
@@ -155,13 +155,19 @@ prop("C03", "exploration",
      assumptions=["gap (stated in DESIGN): 1.x codec values no public call can construct (default != adjusted grid, is_adjusted "
                   "combinations) are not generated"])
 prop("C14", "fault_enumeration",
-     quick=[("atomic", "fast", 700), ("mixed_disk_faulty", "fast", 600)],
-     thorough=[("atomic", "fast", 12000), ("atomic", "san", 400), ("mixed_disk_faulty", "fast", 30000), ("tracks_disk_faulty", "fast", 15000)],
+     quick=[("atomic", "fast", 510), ("atomic_chain", "fast", 102), ("mixed_disk_faulty", "fast", 600)],
+     thorough=[("atomic", "fast", 12000), ("atomic_chain", "fast", 3000), ("atomic", "san", 400), ("mixed_disk_faulty", "fast", 30000),
+               ("tracks_disk_faulty", "fast", 15000)],
      relevant=["atomic_pairs"],
      rule="each run = (pre-state S from a seeded fault-free history on an on-disk library, one public mutating call); the call is "
           "dry-run from S, then re-executed from S once per fault position: every statement x {BUSY, ERROR, READONLY} (F1, "
           "exhaustive), every VFS call addressed as (method, file, ordinal) up to 256 (F3), every VM tick up to 256 (F2), up to 64 "
-          "SQLite allocations (F4); a run is non-trivial if its probe call succeeds fault-free and was enumerated, distinct if its "
+          "SQLite allocations (F4), the second party taking the write lock at every statement boundary (F9), up to 48 (atomic_chain: "
+          "128) persistent device faults (F3-persistent: from the addressed VFS call on, that method on that file keeps failing - "
+          "or, for SQLITE_FULL, nothing on the disk can grow - until the call returns, also while the library rolls back); then "
+          "fault SEQUENCES: 6 (atomic_chain: 40) seeded chains of 2-3 faulted attempts of the same call executed in place on the "
+          "same connection without restoring anything, each judged like a single attempt, followed by a fault-free retry that "
+          "must succeed, equal the fault-free post-state and survive close + reload; a run is non-trivial if its probe call succeeds fault-free and was enumerated, distinct if its "
           "plan digest is new and it reached a new observation hash",
      assumptions=["F1 models the SQLite error classes that leave the transaction open (BUSY, ERROR/CONSTRAINT-like, READONLY) at the "
                   "statement boundary without executing the statement; for it the state must equal the pre-state exactly",
@@ -472,6 +478,8 @@ class Collector:
             e["statements_max"] = max(e["statements_max"], en["statements"])
             e["f1"] += en["f1_positions"]; e["f2"] += en["f2_positions"]
             e["f3"] += en["f3_positions"]; e["f4"] += en["f4_positions"]; e["f9"] += en.get("f9_positions", 0)
+            e["f3_persistent"] = e.get("f3_persistent", 0) + en.get("f3_persistent_positions", 0)
+            e["fault_sequences"] = e.get("fault_sequences", 0) + en.get("fault_sequences", 0)
             e["attempts"] += en["attempts"]; e["faults_fired"] += en["faults_fired"]
             e["threw"] += en["threw"]; e["completed"] += en["completed"]
             e["f3_all_exhaustive"] = e["f3_all_exhaustive"] and en["f3_exhaustive"]
@@ -574,6 +582,17 @@ def minimise(serve, plan, key, profile, budget=300):
             if test(c):
                 steps = c
                 continue
+        # C14 fault sequences: drop earlier faulted attempts of the chain one by one
+        j = 0
+        while j < len(steps[i].get("pre", [])) and used < budget:
+            c = [dict(s) for s in steps]
+            c[i]["pre"] = steps[i]["pre"][:j] + steps[i]["pre"][j + 1:]
+            if not c[i]["pre"]:
+                del c[i]["pre"]
+            if test(c):
+                steps = c
+            else:
+                j += 1
         for sz in (0, 1):
             if steps[i].get("size", 1) > sz and used < budget:
                 c = [dict(s) for s in steps]
@@ -782,7 +801,8 @@ def write_evidence(pid, tier, seed, col, wall, violations, known_hits, samples, 
             "second_party_schema_drift": col.probes.get("drift_applied", 0),
         }.items() if v}),
         "fault_kinds_legend": "F1 statement fails at its boundary; F2 interrupt at a VM tick; F3 VFS call fails (I/O error, disk full, "
-                              "cannot open, busy lock); F4 SQLite allocation fails; F9 second party takes the write lock between two statements; "
+                              "cannot open, busy lock); F3-persistent: the addressed VFS call and every later call of that method on that file fail (for "
+                              "disk-full: nothing can grow) until the API call returns; F4 SQLite allocation fails; F9 second party takes the write lock between two statements; "
                               "F5 close + reload; F6 clock jump; F7 foreign write; F8 stored bytes damaged",
         "op_counts": col.ops,
         "reach_probes": col.probes,
@@ -864,7 +884,7 @@ def cmd_check(pid, tier):
     wall = time.time() - t0
     extra = None
     if col.enum:
-        tot = {k: sum(e[k] for e in col.enum.values()) for k in ("pairs", "f1", "f2", "f3", "f4", "f9", "attempts", "faults_fired", "threw", "completed")}
+        tot = {k: sum(e.get(k, 0) for e in col.enum.values()) for k in ("pairs", "f1", "f2", "f3", "f3_persistent", "f4", "f9", "fault_sequences", "attempts", "faults_fired", "threw", "completed")}
         extra = {"fault_enumeration": {"per_operation_and_family": col.enum, "totals": tot,
                                        "f1_exhaustive_within_each_pair": True,
                                        "outer_loop": "sampled (state, call) pairs"}}
